@@ -74,7 +74,7 @@ class Agg:
         fired = {}
         if resp is not None:
             for k in ("io_eio", "io_short", "io_eintr", "mmaps_denied", "opens_failed_injected",
-                      "cache_drops", "opens_alt", "close_ebadf_in_libs", "patched_bytes"):
+                      "cache_drops", "opens_alt", "close_ebadf_in_libs", "patched_bytes", "stale_dwerr_set"):
                 v = resp.ctr.get(k, 0)
                 if v:
                     fired[k] = v
